@@ -142,6 +142,9 @@ func (s *splitter) Start(ck *snapshotpb.SourceCheckpoint) error {
 		d := s.src.data[id]
 		for i := 0; i < n && i < len(d); i++ {
 			base[d[i].Key+"/"+id] = d[i].Ord + 1
+			for _, f := range d[i].Fan {
+				base[f.Key+"/"+id] = f.Ord + 1
+			}
 		}
 	}
 	s.src.w.H.mu.Lock()
